@@ -3,6 +3,7 @@
 package hdf5
 
 import (
+	"reflect"
 	"encoding/binary"
 	"fmt"
 	"hash/crc32"
@@ -258,6 +259,33 @@ func (c vfC12Case) String() string {
 }
 
 // vfC12Run returns the list of problems (finding-key suffixes) for one case.
+// vfScribble overwrites the caller's side of a value that has been handed to Write (the
+// elements of every inner slice): once Write has returned, the buffers belong to the caller
+// again, and what reaches the file must not depend on what happens to them afterwards.
+func vfScribble(v interface{}) {
+	rv := reflect.ValueOf(v)
+	if rv.Kind() != reflect.Slice {
+		return
+	}
+	for i := 0; i < rv.Len(); i++ {
+		in := rv.Index(i)
+		if in.Kind() != reflect.Slice {
+			continue
+		}
+		for j := 0; j < in.Len(); j++ {
+			e := in.Index(j)
+			switch e.Kind() {
+			case reflect.Int8, reflect.Int16, reflect.Int32, reflect.Int64:
+				e.SetInt(0x5A)
+			case reflect.Uint8, reflect.Uint16, reflect.Uint32, reflect.Uint64:
+				e.SetUint(0x5A)
+			case reflect.Float32, reflect.Float64:
+				e.SetFloat(-90.5)
+			}
+		}
+	}
+}
+
 func vfC12Run(dir string, c vfC12Case) (problems []string, detail map[string]any) {
 	detail = map[string]any{"case": c.String()}
 	p := filepath.Join(dir, fmt.Sprintf("c12-%d.h5", atomic.AddInt64(&vfC12Counter, 1)))
@@ -292,6 +320,7 @@ func vfC12Run(dir string, c vfC12Case) (problems []string, detail map[string]any
 			detail["error"] = err.Error()
 			return []string{"first-write-rejected"}, detail
 		}
+		vfScribble(fd)
 	}
 	data, raws := c.T.mk(c.Lens, c.Content)
 	if err := ds.Write(data); err != nil {
@@ -299,6 +328,7 @@ func vfC12Run(dir string, c vfC12Case) (problems []string, detail map[string]any
 		detail["error"] = err.Error()
 		return []string{"write-rejected"}, detail
 	}
+	vfScribble(data)
 	for k, al := range c.After {
 		ads, err := fw.CreateDataset(fmt.Sprintf("/w%d", k), c.T.dt, []uint64{uint64(len(al))})
 		if err != nil {
@@ -312,6 +342,7 @@ func vfC12Run(dir string, c vfC12Case) (problems []string, detail map[string]any
 			detail["error"] = err.Error()
 			return []string{"later-write-rejected"}, detail
 		}
+		vfScribble(ad)
 	}
 	if c.Plain {
 		pds, err := fw.CreateDataset("/plain", Int32, []uint64{4})
@@ -660,7 +691,7 @@ func TestVerif_C12(t *testing.T) {
 	// long-session family: seven datasets of 10^4 one-byte elements in one session — more than
 	// 2^16 heap objects through one writer, so that any per-session 16-bit quantity wraps
 	cases = append(cases, vfC12Case{T: types[0], SB: 2, Lens: rep(10000, 1), After: [][]int{rep(10000, 1), rep(10000, 1), rep(10000, 1), rep(10000, 1), rep(10000, 1), rep(10000, 1)}})
-	r.Rule("variable-length strings: all element lists of length 1..3 over the length alphabet {0,1,7,8,9,4063,4064,4065,4072,4080,4081,65537} x superblock {2,3} x {contiguous, chunked}; content classes (ASCII, embedded NUL, multi-byte UTF-8); six numeric base types x 9 length lists x 2 layouts; roll-over families of 254..257 (thorough up to 10^4) equal elements; after reopen the datatype must be variable-length of the written base type, the library's element readers must return the elements or an error, and an independent decoder resolves every element reference into independently parsed heap collections (declared size, object sizes, alignment, unique indices, free-space record); every case is distinct; session families: 7 length lists for /v x {a later variable-length dataset with each of the 7 lists, /v written twice (first with each of the 7 lists), two later datasets plus a fixed-size neighbour, a fixed-size neighbour only} x {strings, int32 sequences} x 2 layouts; a long session of seven datasets of 10^4 elements (more than 2^16 heap objects through one writer)")
+	r.Rule("variable-length strings: all element lists of length 1..3 over the length alphabet {0,1,7,8,9,4063,4064,4065,4072,4080,4081,65537} x superblock {2,3} x {contiguous, chunked}; content classes (ASCII, embedded NUL, multi-byte UTF-8); six numeric base types x 9 length lists x 2 layouts; roll-over families of 254..257 (thorough up to 10^4) equal elements; after reopen the datatype must be variable-length of the written base type, the library's element readers must return the elements or an error, and an independent decoder resolves every element reference into independently parsed heap collections (declared size, object sizes, alignment, unique indices, free-space record); the caller's inner slices are overwritten as soon as Write has returned (what reaches the file must not depend on them any more); every case is distinct; session families: 7 length lists for /v x {a later variable-length dataset with each of the 7 lists, /v written twice (first with each of the 7 lists), two later datasets plus a fixed-size neighbour, a fixed-size neighbour only} x {strings, int32 sequences} x 2 layouts; a long session of seven datasets of 10^4 elements (more than 2^16 heap objects through one writer)")
 	vkit.ParallelFor(len(cases), func(i int) {
 		if r.Expired() {
 			r.Cap("time budget")
